@@ -49,6 +49,18 @@ class RINGToken(object):
         else:
             return eq(self.name, other)
 
+    # Python 3 ignores __cmp__: the readers compare tokens with rule names.
+    def __eq__(self, other):
+        if isinstance(other, RINGToken):
+            return self.name == other.name
+        return self.name == other
+
+    def __ne__(self, other):
+        return not self == other
+
+    def __hash__(self):
+        return hash(self.name)
+
     def __str__(self):
         return self.name
 
